@@ -432,6 +432,11 @@ func (s *Service) handleConn(conn net.Conn) {
 			} else if !s.checkCommandPerm(c, auth.PermExecute) {
 				resp.Error = "unauthorized"
 			} else {
+				if er.Request == nil {
+					// Nothing below this point expects a request without its inner
+					// Request; an absent one is an empty one.
+					er.Request = &command.Request{}
+				}
 				res, idx, err := s.db.Execute(context.Background(), er)
 				if err != nil {
 					resp.Error = err.Error()
@@ -454,6 +459,11 @@ func (s *Service) handleConn(conn net.Conn) {
 			} else if !s.checkCommandPerm(c, auth.PermQuery) {
 				resp.Error = "unauthorized"
 			} else {
+				if qr.Request == nil {
+					// Nothing below this point expects a request without its inner
+					// Request; an absent one is an empty one.
+					qr.Request = &command.Request{}
+				}
 				res, _, idx, err := s.db.Query(context.Background(), qr)
 				if err != nil {
 					resp.Error = err.Error()
@@ -476,6 +486,11 @@ func (s *Service) handleConn(conn net.Conn) {
 			} else if !s.checkCommandPermAll(c, auth.PermQuery, auth.PermExecute) {
 				resp.Error = "unauthorized"
 			} else {
+				if rr.Request == nil {
+					// Nothing below this point expects a request without its inner
+					// Request; an absent one is an empty one.
+					rr.Request = &command.Request{}
+				}
 				res, numRW, idx, err := s.db.Request(context.Background(), rr)
 				if err != nil {
 					resp.Error = err.Error()
